@@ -413,8 +413,17 @@ Definition run_parse_decls (args : list N) : list N :=
   | [] => [1; 0]
   end.
 
+(* 83: a function declaration up to the ')' of its parameter list *)
+Definition run_fn_decl (args : list N) : list N :=
+  let toks := dec_tks args in
+  match fn_decl (4 * length toks + 8) toks with
+  | DOk (nm, rt, ps, va, rest) => 0 :: nm :: nlen rest :: enc_ty (TFn rt ps va)
+  | DErr e => [1; e]
+  end.
+
 Definition run_case (cmd : N) (args : list N) : list N :=
   match cmd, args with
+  | 83, _ => run_fn_decl args
   | 82, _ => run_parse_decls args
   | 81, _ => run_print_decl args
   | 80, _ => run_parse_var args
